@@ -35,9 +35,12 @@ structure NRCfg (F : Type) where
   nsTol : F
   slopeThr : F
   fp0 : F
-  maxSteps : Nat
+  maxSteps : Int
   nsMin : F
   nsMax : F
+
+/-- number of steps the loop can take: `max_steps`, none for a negative setting -/
+def NRCfg.steps {F : Type} (c : NRCfg F) : Nat := c.maxSteps.toNat
 
 /-- how the `while` loop was left -/
 inductive LoopEnd (F : Type) where
@@ -97,19 +100,20 @@ def nrLoop (c : NRCfg F) (obj : F → Eval F) :
 
 variable [OfNat F 1]
 
-/-- `NR1dNsMinimizerImpl.minimize`; `.error` = the `ValueError` for an initial value below `ns_min`. -/
+/-- `NR1dNsMinimizerImpl.minimize`; `.error` = the `ValueError` for an initial value below `ns_min`.
+The final test is `niter >= max_steps` (so a negative `max_steps` is reported as not converged). -/
 def nr (c : NRCfg F) (obj : F → Eval F) (ns0 : F) : Except String (NROut F) :=
   if ns0 < c.nsMin then .error "ValueError:initial-below-ns_min"
   else
-    match nrLoop c obj c.maxSteps ns0 (c.nsTol + 1) c.fp0 ns0 0 [] with
+    match nrLoop c obj c.steps ns0 (c.nsTol + 1) c.fp0 ns0 0 [] with
     | .boundary ns ev step flag niter qs =>
-        .ok { x := ns, f := ev.f, flag := if niter == c.maxSteps then 1 else flag, niter := niter,
+        .ok { x := ns, f := ev.f, flag := if decide (c.maxSteps ≤ (niter : Int)) then 1 else flag, niter := niter,
               lastStep := step, lastFp := ev.fp, xPrev := ns, atBoundary := true,
               queries := qs.reverse }
     | .ended ns step fp xp niter qs =>
         -- "Once converged evaluate function at minimum value"
         let ev := obj ns
-        .ok { x := ns, f := ev.f, flag := if niter == c.maxSteps then 1 else 0, niter := niter,
+        .ok { x := ns, f := ev.f, flag := if decide (c.maxSteps ≤ (niter : Int)) then 1 else 0, niter := niter,
               lastStep := step, lastFp := fp, xPrev := xp, atBoundary := false,
               queries := (ns :: qs).reverse }
 
